@@ -926,6 +926,27 @@ def run_disc(case) -> dict[str, Any]:
         out["lin_calls"] = sorted(d.calls)
     except Exception as e:  # noqa: BLE001
         out["lin_exc"] = common.exc_class(e) + ": " + repr(e)[:120]
+    # 1b. the same with parallel differentiation (processes) and with differentiated inputs/outputs subsets
+    if case.get("parallel_lin"):
+        try:
+            d = PolyDiscipline(in_sizes, out_sizes, case["polys"], x0)
+            d.set_jacobian_approximation(
+                jac_approx_type=MODE[case["scheme"]], jax_approx_step=disc_step(case), jac_approx_n_processes=2
+            )
+            out["lin_par"] = flatten_jac(d.linearize(compute_all_jacobians=True), case)
+        except Exception as e:  # noqa: BLE001
+            out["lin_par_exc"] = common.exc_class(e) + ": " + repr(e)[:120]
+    if case.get("diff_io"):
+        try:
+            dins, douts = case["diff_io"]
+            d = PolyDiscipline(in_sizes, out_sizes, case["polys"], x0)
+            d.set_jacobian_approximation(jac_approx_type=MODE[case["scheme"]], jax_approx_step=disc_step(case))
+            d.add_differentiated_inputs(dins)
+            d.add_differentiated_outputs(douts)
+            jac = d.linearize()
+            out["lin_io"] = {o: {i_: np.asarray(jac[o][i_]).tolist() for i_ in jac[o]} for o in jac}
+        except Exception as e:  # noqa: BLE001
+            out["lin_io_exc"] = common.exc_class(e) + ": " + repr(e)[:120]
     # 2. compute_approx_jac with a component subset
     rows, cols = disc_selected(case)
     try:
@@ -1002,6 +1023,29 @@ def disc_oracle(case, obs) -> list[tuple[str, str]]:
         bad.append((f"disc-linearize-raises[{sch}]", obs["lin_exc"]))
     else:
         check_matrix("linearize", obs["lin"], set(range(n)))
+    if "lin_par_exc" in obs:
+        bad.append((f"disc-parallel-linearize-raises[{sch}]", obs["lin_par_exc"]))
+    elif "lin_par" in obs and "lin" in obs and obs["lin_par"] != obs["lin"]:
+        bad.append((f"disc-parallel-differs[{sch}]", f"parallel linearize {obs['lin_par']} != serial {obs['lin']}"))
+    if "lin_io_exc" in obs:
+        bad.append((f"disc-linearize-io-raises[{sch}]", obs["lin_io_exc"]))
+    elif "lin_io" in obs and "lin" in obs and obs["lin"][0] == "ok":
+        dins, douts = case["diff_io"]
+        full = obs["lin"][1]
+        jac = obs["lin_io"]
+        if sorted(jac) != sorted(douts) or any(sorted(jac[o]) != sorted(dins) for o in jac):
+            bad.append((f"disc-linearize-io-names[{sch}]", f"linearize returned {{{', '.join(f'{o}: {sorted(jac[o])}' for o in jac)}}} for inputs {dins}, outputs {douts}"))
+        else:
+            ro = 0
+            for on, os_ in case["out_sizes"]:
+                co = 0
+                for iname, is_ in case["in_sizes"]:
+                    if on in douts and iname in dins:
+                        want = [row[co : co + is_] for row in full[ro : ro + os_]]
+                        if jac[on][iname] != want:
+                            bad.append((f"disc-linearize-io-block[{sch}]", f"d{on}/d{iname} = {jac[on][iname]} differs from the block {want} of the full approximated Jacobian"))
+                    co += is_
+                ro += os_
     if "sub_exc" in obs:
         tag = "vec" if isinstance(case["step"], list) else "scalar"
         bad.append((f"disc-approx-subset-raises[{sch},{tag}]", obs["sub_exc"]))
@@ -1209,6 +1253,39 @@ def check_disc_cases(res: Result, cases: list[dict[str, Any]]) -> None:
             cols = ";".join(",".join(rat(v) for v in col) for col in ps[1]) or "-"
             place_lines.append(f"place m={c['m']} n={c['n']} idx={','.join(str(k) for k in cols_sel) or '[]'} cols={cols}")
     place_answers = common.run_lean_driver(PID, place_lines) if place_lines else []
+    # third round: the verdict of check_jacobian(indices) on the exact / wrong analytic Jacobian
+    chk_lines, chk_pos = [], {}
+    for i, c in enumerate(cases):
+        pm = parse_model(answers[4 * i])
+        if pm[0] != "ok":
+            continue
+        if i in place_pos:
+            full = place_answers[place_pos[i]]
+            if not full.startswith("full="):
+                continue
+            cols = [[Fraction(t) for t in col.split(",")] for col in full[5:].split(";")]
+        else:
+            cols = pm[1]
+        n, m = c["n"], c["m"]
+        b_rows = [[cols[cc][j] for cc in range(n)] for j in range(m)]
+        rows_sel, cols_sel = disc_selected(c)
+        x = frl(c["x"])
+        exact = [[float(eval_poly(poly_partial(c["polys"][j], cc), x)) for cc in range(n)] for j in range(m)]
+        t = rat(Fraction(2) ** c["threshold_pow"])
+        for label in ("right", "wrong"):
+            if label == "wrong" and not c.get("wrong"):
+                continue
+            a = [list(r) for r in exact]
+            if label == "wrong":
+                w = c["wrong"]
+                a[w["row"]][w["col"]] = a[w["row"]][w["col"]] + float(Fraction(w["delta"]))
+            chk_pos[(i, label)] = len(chk_lines)
+            chk_lines.append(
+                f"chk t={t} a={';'.join(','.join(rat(v) for v in r) for r in a)} "
+                f"b={';'.join(','.join(rat(v) for v in r) for r in b_rows)} "
+                f"rows={','.join(str(k) for k in rows_sel) or '[]'} cols={','.join(str(k) for k in cols_sel) or '[]'}"
+            )
+    chk_answers = common.run_lean_driver(PID, chk_lines) if chk_lines else []
     for i, c in enumerate(cases):
         res.evaluations += 1
         obs = run_disc(c)
@@ -1222,6 +1299,13 @@ def check_disc_cases(res: Result, cases: list[dict[str, Any]]) -> None:
             res.violate("oracle", key, msg, {"disc_case": c, "what": msg, "observed": {k: v for k, v in obs.items() if k.endswith("exc") or k.startswith("chk")}})
         pa = place_answers[place_pos[i]] if i in place_pos else None
         msg = disc_compare(c, obs, answers[4 * i : 4 * i + 4], pa)
+        for label in ("right", "wrong"):
+            if (i, label) in chk_pos and ("chk_" + label) in obs and not msg:
+                want = chk_answers[chk_pos[(i, label)]]
+                got = "1" if obs["chk_" + label] else "0"
+                res.count("disc:check-verdict-compared")
+                if want != got:
+                    msg = f"check_jacobian verdict on the {label} analytic Jacobian: implementation {got}, model {want}"
         if msg:
             res.disagreements += 1
             if not bad:
@@ -1334,6 +1418,13 @@ def run(ctx) -> Result:
     for _ in range(ndisc):
         c = gen_disc_case(rng)
         c = add_wrong(c, rng) if rng.chance(0.5) else add_threshold(c)
+        if rng.chance(0.15):
+            c["parallel_lin"] = True
+        if rng.chance(0.5) and not isinstance(c["step"], list):
+            # (a per-component step has one entry per *differentiated* input component: scalar steps only here)
+            ins = [nm for nm, _ in c["in_sizes"]]
+            outs = [nm for nm, _ in c["out_sizes"]]
+            c["diff_io"] = [rng.sample(ins, rng.randint(1, len(ins))), rng.sample(outs, rng.randint(1, len(outs)))]
         dcs.append(c)
     check_disc_cases(res, dcs)
     # out-of-scope probes (information only)
